@@ -31,6 +31,38 @@ CHECKS.update({
          "Differential oracle: needs no expected values; trusts the flatteners in vmc/oracles/flatten.py.",
          "DESIGN.md section 6, C06"),
 })
+CHECKS.update({
+ "C03": ("model_checking",
+         "deviation-bounded exhaustive lattice search (E1) x {glyf_colr_0, glyf, cff_colr_0, cff2_colr_0}; one-to-one outline matching + COLRv0 picture semantics",
+         "Every state with <=2/<=3 deviations: placed outlines (COLRv0 layers, glyf components) are matched one-to-one with source shapes by Hausdorff distance, the glyph's own outline must cover nothing no source reaches, and for solid group-free sources layer order, palette colour+alpha, picture and base-glyph bounds are checked.",
+         "Overlap fill of mirrored components in plain glyf is not claimed; semi-transparent currentColor is treated as inexpressible in COLRv0.",
+         "DESIGN.md section 6, C03"),
+ "C04": ("model_checking",
+         "exhaustive word enumeration (E2) over a codepoint alphabet + all pairs/triples of a 20-sequence universe built through the conformance-bound in-process pipeline, judged by an independent mini shaper",
+         "All sequences of length <=4 over 13 codepoints (+ chains to length 14): names injective/legal, file-name round trip; all pairs (x formats x keep_glyph_names) and triples of 20 sequences built through PIPE (byte-identical to the CLI on the conformance builds): O-SHAPE must reach exactly the glyph carrying that source's artwork; .notdef, space, sequence-only blanks; full product for the advance rule.",
+         "PIPE is harness code bound to the CLI by byte-identity; O-SHAPE implements cmap + ligature substitution only (any other lookup type is reported).",
+         "DESIGN.md section 6, C04"),
+ "C05": ("model_checking",
+         "deviation-bounded exhaustive lattice search (E1) over outline-moving dimensions x clipbox_quantization; clip box read from the binary against independently computed bounds",
+         "Every state with <=2/<=3 deviations: ClipBox contains scene-model bounds of every source shape and transformed bounds of every compiled outline within the granted slack, lies on the quantisation grid, is absent for empty glyphs, and removes no painted probe.",
+         "Bounds from dense outline samples (8 per segment).",
+         "DESIGN.md section 6, C05"),
+ "C07": ("model_checking",
+         "deviation-bounded exhaustive lattice search (E1) over 13 formats x scene/config dimensions; own parsers of raw COLR/SVG/CBLC structures",
+         "Every state with <=2 deviations x all 13 formats: the emitted bytes load non-lazily, decompile, re-save to a TTX-equal font (second re-save a fixed point) and satisfy the raw-table rules (sorted/in-range COLR records, sorted disjoint SVG ranges, unique ids, local hrefs, no cross-glyph references, consecutive CBLC runs, one bitmap per glyph, glyph-set agreement, post format).",
+         "Own binary parsers written from the OpenType spec; fontTools for everything else.",
+         "DESIGN.md section 6, C07"),
+ "C14": ("model_checking",
+         "deviation-bounded exhaustive lattice search (E1; thorough = full product) over bitmap height x aspect x width x metrics x format x glyph-order shape",
+         "Quick: <=3 deviations; thorough: the full 21 600-state product. Image bytes, ppem, placement judged with the exact pixel size, pixel advance, consecutive runs; unrepresentable cases must raise.",
+         "bitmap_resolution equals the PNG height, as resvg -h guarantees in the real pipeline; the CLI chain itself is exercised by C20/C09.",
+         "DESIGN.md section 6, C14"),
+ "C19": ("model_checking",
+         "exhaustive full-product enumeration of isometric copies built with the real code",
+         "Full product outline (7) x translation (5) x rotation (10) x mirror (3) x viewBox (4) x {same, other glyph} x tolerance (2) x 3 formats = 50 400 real builds (quick: a 3 024-build sub-product): donor and copy must resolve to one outline; with tolerance -1 they must be separate.",
+         "Outlines are in generic position w.r.t. picosvg's snap grid (computed from the scene data); the boundary L-shape and the collinear-endpoint leaf are recorded known findings.",
+         "DESIGN.md section 6, C19"),
+})
 PENDING = {}  # id -> reason it is not claimed (yet)
 
 def main():
